@@ -180,25 +180,34 @@ def event_pairing(ctx: Ctx) -> None:
     f = p.func(f"{TE}._retime_events")
     sn = f.param_names()[0]
     loc = locals_of(f)
-    lists = [b for name, bs in loc.b.items() for b in bs if b.kind == "assign" and isinstance(b.value, ast.List) and any(isinstance(e, ast.Tuple) for e in b.value.elts)]
-    lb = one(lists, f"list of (events, tag) pairs in {f.fq}")
+    from .tables import list_items, sums_of as tsums0
+    fsums = tsums0(ctx, f)
+    require(bool(fsums), f"{f.fq}: no path")
+    s0 = max(fsums, key=lambda s_: len(s_.effects))
+    cands = {}
+    for nm in {e.target.id for e in s0.effects if e.kind == "bind" and isinstance(e.target, ast.Name)}:
+        it = list_items(s0, nm)
+        if it and any(k == "elem" and isinstance(e, ast.Tuple) and len(e.elts) == 2 and "EventTag." in ast.unparse(e.elts[1]) for k, e in it):
+            cands[nm] = it
+    require(len(cands) == 1, f"{f.fq}: expected exactly one list of (events, tag) pairs, found {sorted(cands)}")
+    lname, items = next(iter(cands.items()))
     pairs = []
     starred = []
-    for e in lb.value.elts:
-        if isinstance(e, ast.Starred):
-            starred.append(ast.unparse(e.value))
+    for k, e in items:
+        if k == "splice":
+            starred.append(ast.unparse(e))
             continue
         require(isinstance(e, ast.Tuple) and len(e.elts) == 2, f"{f.fq}: pair {src(e)} has an unrecognised shape")
-        s0 = e.elts[0]
-        if isinstance(s0, ast.Call) and isinstance(s0.func, ast.Name) and s0.func.id == "cast" and len(s0.args) == 2:
-            s0 = s0.args[1]
+        s0_ = e.elts[0]
+        if isinstance(s0_, ast.Call) and isinstance(s0_.func, ast.Name) and s0_.func.id == "cast" and len(s0_.args) == 2:
+            s0_ = s0_.args[1]
         t = try_ev(ctx, f, e.elts[1])
-        pairs.append((ast.unparse(s0), t.name if isinstance(t, EnumVal) else src(e.elts[1])))
+        pairs.append((ast.unparse(s0_), t.name if isinstance(t, EnumVal) else src(e.elts[1])))
     spec = [(f"{sn}.timing_data.bpms[1:]", "BPM"), (f"{sn}.timing_data.delays", "DELAY"), (f"{sn}.timing_data.delays", "DELAY_END"),
             (f"{sn}.timing_data.stops", "STOP"), (f"{sn}.timing_data.stops", "STOP_END")]
     ctx.expect("R-TABLE", f, "event lists are paired with their tags (bpms[1:]/BPM, delays/DELAY+DELAY_END, stops/STOP+STOP_END)", sorted(pairs) == sorted(spec), str(pairs),
-               f"pairs are {pairs}; expected {spec}", node=lb.node)
-    ctx.expect("R-TABLE", f, "coalesced warps are part of the event stream", starred == [f"{sn}._coalesce_warps()"], str(starred), f"starred: {starred}", node=lb.node)
+               f"pairs are {pairs}; expected {spec}", node=f.node)
+    ctx.expect("R-TABLE", f, "coalesced warps are part of the event stream", starred == [f"{sn}._coalesce_warps()"], str(starred), f"starred: {starred}", node=f.node)
     # _coalesce_warps returns [(starts, WARP), (ends, WARP_END)]; per warp: extend the last segment, or leave it, or start a new one
     cw = p.func(f"{TE}._coalesce_warps")
     from .tables import judge as tjudge, loop_decs, sums_of as tsums
@@ -427,46 +436,45 @@ def dims_time(ctx: Ctx) -> None:
     f = p.func(f"{ENG}:TimingState.time_until")
     sn, beat, tagp = f.param_names()
     table = {beat: D.BEAT, f"{sn}.event.beat": D.BEAT, f"{sn}.bpm": D.BPM, f"{sn}.event.time": D.SEC}
-    # plain assignments of the elapsed-time local
-    rets = [r for r in body_walk(f.node) if isinstance(r, ast.Return)]
-    r = one(rets, f"return of {f.fq}")
-    require(isinstance(r.value, ast.Name), f"{f.fq}: return value is not a local")
-    tv = r.value.id
-    n = 0
-    for node in body_walk(f.node):
-        if isinstance(node, ast.Assign) and isinstance(node.targets[0], ast.Name) and node.targets[0].id == tv:
-            n += 1
-            try:
-                u = D.dim(node.value, _env_for(ctx, f, table))
-                ok = u in (D.SEC, D.ANY)
-                detail = D.show(u)
-            except D.DimError as e:
-                ok, detail = False, str(e)
-            fs = facts(ctx, f, node)
-            warp = [pol for a, pol in fs if ast.unparse(a) == f"{sn}.warp"]
-            if isinstance(node.value, ast.Constant):
-                ctx.expect("R-DIM", f, "no time elapses inside a warp", node.value.value == 0 and warp == [True], unparse_facts(fs), f"{src(node)} under {unparse_facts(fs)}", node=node)
-            else:
-                ctx.expect("R-DIM", f, "elapsed time = beats * 60 / bpm is in seconds", ok, detail, f"{src(node.value)}: {detail}", node=node)
-                ctx.expect("R-DIM", f, "elapsed time is computed from the BPM only outside warps", warp == [False], unparse_facts(fs), f"under {unparse_facts(fs)}", node=node)
-                # beats elapsed = query beat - state beat
-                okb = any(ast.unparse(x) == f"{beat} - {sn}.event.beat" for x in ast.walk(inline(node.value, f)))
-                ctx.expect("R-DIM", f, "beats elapsed = asked beat - state's beat", okb, "", f"{src(inline(node.value, f))}", node=node)
-        if isinstance(node, ast.AugAssign) and isinstance(node.target, ast.Name) and node.target.id == tv:
-            n += 1
-            fs = facts(ctx, f, node)
-            st = [s for a, pol in fs if pol for s in [_membership(ctx, f, a, f"{sn}.event.tag")] if s]
-            qt = [s for a, pol in fs if pol for s in [_membership(ctx, f, a, tagp)] if s]
-            okg = st == [{"STOP", "DELAY"}] and qt == [{"STOP_END", "DELAY_END"}] and isinstance(node.op, ast.Add)
-            ctx.expect("R-TABLE", f, "pause length added exactly for state tag in {STOP, DELAY} and asked tag in {STOP_END, DELAY_END}", okg, unparse_facts(fs),
-                       f"pause is added under {unparse_facts(fs)}", node=node)
-            try:
-                u = D.dim(node.value, _env_for(ctx, f, table, value_unit=D.SEC if st == [{"STOP", "DELAY"}] else None))
-                ok, detail = u == D.SEC, D.show(u)
-            except D.DimError as e:
-                ok, detail = False, str(e)
-            ctx.expect("R-DIM", f, "the added pause is the event's value, in seconds", ok and ast.unparse(node.value) == f"float({sn}.event.value)", detail, f"{src(node)}: {detail}", node=node)
-    ctx.floor("assignments of the elapsed time", n, 3)
+    # the returned time, per path: 0 inside a warp, else (asked beat - state's beat) * 60 / bpm seconds; plus the pause length exactly under the
+    # {STOP, DELAY} x {STOP_END, DELAY_END} guard
+    from .tables import Dec, judge as tjudge, sums_of as tsums
+    W = f"{sn}.warp"
+    ST, QT = f"{sn}.event.tag in (EventTag.DELAY, EventTag.STOP)", f"{tagp} in (EventTag.DELAY_END, EventTag.STOP_END)"
+    PAUSE = f"float({sn}.event.value)"
+
+    def terms(e):
+        if isinstance(e, ast.BinOp) and isinstance(e.op, ast.Add):
+            return terms(e.left) + terms(e.right)
+        return [e]
+
+    def out(s_):
+        k, v = s_.terminal()
+        if k != "return" or v is None:
+            return (k, False)
+        ts = terms(v)
+        pause = [t for t in ts if ast.unparse(t) == PAUSE]
+        rest = [t for t in ts if ast.unparse(t) != PAUSE]
+        if len(pause) > 1 or len(rest) != 1:
+            return ("other: " + ast.unparse(v), bool(pause))
+        b_ = rest[0]
+        if isinstance(b_, ast.Constant) and b_.value == 0:
+            return ("zero", bool(pause))
+        try:
+            u = D.dim(b_, _env_for(ctx, f, table))
+        except D.DimError as e_:
+            return (f"not seconds: {ast.unparse(b_)} ({e_})", bool(pause))
+        okb = any(ast.unparse(x) == f"{beat} - {sn}.event.beat" for x in ast.walk(b_))
+        if u in (D.SEC,) and okb:
+            return ("beats*60/bpm", bool(pause))
+        return (f"not (asked beat - state's beat) * 60 / bpm in seconds: {ast.unparse(b_)} [{D.show(u)}]", bool(pause))
+
+    sums = tsums(ctx, f)
+    decs = [Dec(dict(s_.plain_assign()), out(s_), s_) for s_ in sums]
+    tjudge(ctx, "R-DIM", f, "no time elapses inside a warp; otherwise elapsed time = (asked beat - state's beat) * 60 / bpm, in seconds; the pause length float(event.value) is added exactly for "
+           "state tag in {STOP, DELAY} and asked tag in {STOP_END, DELAY_END}", decs, [W, ST, QT], lambda a_: ("zero" if a_[W] else "beats*60/bpm", bool(a_[ST] and a_[QT])),
+           why="seconds = beats * 60 / (beats per minute); a stop or delay lasts from its start event to its end event")
+    ctx.floor("paths through time_until", len(decs), 4)
     # advance
     a = p.func(f"{ENG}:TimingStateMachine.advance")
     asn, evp = a.param_names()
